@@ -103,7 +103,10 @@ def props_of(mis):
     # <Family>.<method>.<class> and <Kind>.new.* / <Kind>.mut.*
     if ".prefetch." in tag:
         # absolute answers of rank_prefetch: C09 is relational (see rel.prefetch); a wrong
-        # value here is a wrong rank and is reported by the functional property's own grids
+        # value here is a wrong rank and is reported by the functional property's own grids.
+        # A panic of a prefetching call or of a prefetch hint, however, is what C09 forbids.
+        if is_panic(mis.get("got")):
+            out.add("C09")
         return out
     if head in FAMILY_PROP:
         out.add(FAMILY_PROP[head])
